@@ -284,24 +284,6 @@ func c08GenClause(t *rapid.T, seen []c08Seen) c08Clause {
 	return c
 }
 
-func c08GenFilter(t *rapid.T, seen []c08Seen) c08Filter {
-	f := c08Filter{
-		And:  rapid.SampledFrom([]string{"AND", "AND", "and", "And", "aNd"}).Draw(t, "andkw"),
-		Or:   rapid.SampledFrom([]string{"OR", "OR", "or", "Or", "oR"}).Draw(t, "orkw"),
-		Wide: rapid.IntRange(0, 4).Draw(t, "wide") == 0,
-	}
-	nb := rapid.SampledFrom([]int{1, 1, 2, 2, 2, 3}).Draw(t, "nblocks")
-	for b := 0; b < nb; b++ {
-		nc := rapid.SampledFrom([]int{1, 1, 2, 2, 3}).Draw(t, "nclauses")
-		var blk []c08Clause
-		for i := 0; i < nc; i++ {
-			blk = append(blk, c08GenClause(t, seen))
-		}
-		f.Blocks = append(f.Blocks, blk)
-	}
-	return f
-}
-
 func c08GenVec(t *rapid.T) []float32 {
 	v := make([]float32, 3)
 	for i := range v {
@@ -310,102 +292,115 @@ func c08GenVec(t *rapid.T) []float32 {
 	return v
 }
 
-// c08GenCase draws a history + filters. The history generator keeps a tiny shadow of "which
-// ids are live" only to make most ops applicable; the interpreter re-derives applicability.
-func c08GenCase() *rapid.Generator[c08Case] {
-	return rapid.Custom(func(t *rapid.T) c08Case {
-		var c c08Case
-		lists := rapid.IntRange(0, 9).Draw(t, "lists") >= 5 // list-valued fields in about half of the cases
-		live := map[string]bool{}
-		dead := map[string]bool{}
-		compressed := false
-		nOps := rapid.IntRange(3, 18).Draw(t, "nops")
-		pickLive := func() string {
-			var l []string
+// c08Raw is a drawn, state-independent op: Pick is resolved against the set of live ids by
+// c08Resolve. Drawing the history as a plain slice of such ops lets rapid shrink it by deleting
+// elements; the saved case contains the resolved (concrete) ops only.
+type c08Raw struct {
+	K    string
+	Pick int
+	Vec  []float32
+	Meta map[string]any
+}
+
+var c08Tails = [][]string{
+	{},
+	{"restart"},
+	{"snapshot", "restart"},
+	{"rewrite", "restart"},
+	{"compress"},
+	{"compress", "restart"},
+	{"restart", "snapshot", "restart", "rewrite", "restart", "compress", "restart"},
+}
+
+// c08Resolve turns raw ops into concrete ones: set/del address the Pick-th live id (an add is
+// substituted while nothing is live), add takes the Pick-th id that is not live — ids deleted
+// earlier first, so re-adds are frequent. Ops that cannot apply are dropped.
+func c08Resolve(raw []c08Raw) []c08Op {
+	m := c08NewModel()
+	dead := map[string]bool{}
+	var out []c08Op
+	for _, r := range raw {
+		op := c08Op{K: r.K}
+		if (r.K == "set" || r.K == "del") && len(m.Live) == 0 {
+			op.K = "add"
+		}
+		switch op.K {
+		case "add":
+			var cand []string
 			for _, id := range c08IDs {
-				if live[id] {
-					l = append(l, id)
+				if m.Live[id] == nil && dead[id] {
+					cand = append(cand, id)
 				}
 			}
-			if len(l) == 0 {
-				return ""
-			}
-			return rapid.SampledFrom(l).Draw(t, "liveid")
-		}
-		add := func() {
-			var cand []string
-			reAdd := rapid.Bool().Draw(t, "preferReAdd")
 			for _, id := range c08IDs {
-				if !live[id] && (!reAdd || dead[id]) {
+				if m.Live[id] == nil && !dead[id] {
 					cand = append(cand, id)
 				}
 			}
 			if len(cand) == 0 {
-				for _, id := range c08IDs {
-					if !live[id] {
-						cand = append(cand, id)
-					}
-				}
-			}
-			if len(cand) == 0 {
-				return
-			}
-			id := rapid.SampledFrom(cand).Draw(t, "addid")
-			c.Ops = append(c.Ops, c08Op{K: "add", ID: id, Vec: c08GenVec(t), Meta: c08GenMeta(t, 0, lists)})
-			live[id] = true
-		}
-		// start with a few vectors so that filters have something to select
-		for i, n := 0, rapid.IntRange(2, 5).Draw(t, "ninit"); i < n; i++ {
-			add()
-		}
-		for i := 0; i < nOps; i++ {
-			switch rapid.SampledFrom([]string{"add", "add", "add", "set", "set", "set", "set", "set", "del", "del", "vacuum", "snapshot", "rewrite", "compress", "restart", "restart"}).Draw(t, "opkind") {
-			case "add":
-				add()
-			case "set":
-				if id := pickLive(); id != "" {
-					c.Ops = append(c.Ops, c08Op{K: "set", ID: id, Meta: c08GenMeta(t, 1, lists)})
-				}
-			case "del":
-				if id := pickLive(); id != "" {
-					c.Ops = append(c.Ops, c08Op{K: "del", ID: id})
-					delete(live, id)
-					dead[id] = true
-				}
-			case "vacuum":
-				c.Ops = append(c.Ops, c08Op{K: "vacuum"})
-			case "snapshot":
-				c.Ops = append(c.Ops, c08Op{K: "snapshot"})
-			case "rewrite":
-				c.Ops = append(c.Ops, c08Op{K: "rewrite"})
-			case "compress":
-				if !compressed && len(live) > 0 {
-					c.Ops = append(c.Ops, c08Op{K: "compress"})
-					compressed = true
-				}
-			case "restart":
-				c.Ops = append(c.Ops, c08Op{K: "restart"})
-			}
-		}
-		// tail: the other ways of reaching the final state
-		tails := [][]string{
-			{},
-			{"restart"},
-			{"snapshot", "restart"},
-			{"rewrite", "restart"},
-			{"compress"},
-			{"compress", "restart"},
-			{"restart", "snapshot", "restart", "rewrite", "restart", "compress", "restart"},
-		}
-		for _, k := range tails[rapid.IntRange(0, len(tails)-1).Draw(t, "tail")] {
-			if k == "compress" && (compressed || len(live) == 0) {
 				continue
 			}
-			if k == "compress" {
-				compressed = true
+			if r.Pick%3 == 0 { // a third of the adds prefer a deleted id, the others a fresh one
+				op.ID = cand[0]
+			} else {
+				op.ID = cand[len(cand)-1-(r.Pick%len(cand))]
 			}
-			c.Ops = append(c.Ops, c08Op{K: k})
+			op.Vec, op.Meta = r.Vec, r.Meta
+			if op.Meta == nil {
+				op.Meta = map[string]any{}
+			}
+		case "set", "del":
+			ids := m.ids()
+			op.ID = ids[r.Pick%len(ids)]
+			if op.K == "set" {
+				op.Meta = r.Meta
+				if len(op.Meta) == 0 {
+					continue
+				}
+			} else {
+				dead[op.ID] = true
+			}
 		}
+		if !m.applicable(op) {
+			continue
+		}
+		m.apply(op)
+		out = append(out, op)
+	}
+	return out
+}
+
+// c08GenCase draws a history + filters.
+func c08GenCase() *rapid.Generator[c08Case] {
+	return rapid.Custom(func(t *rapid.T) c08Case {
+		var c c08Case
+		lists := rapid.IntRange(0, 9).Draw(t, "lists") >= 5 // list-valued fields in about half of the cases
+		kinds := []string{"add", "add", "add", "add", "set", "set", "set", "set", "set", "del", "del", "vacuum", "snapshot", "rewrite", "compress", "restart", "restart"}
+		rawOp := rapid.Custom(func(t *rapid.T) c08Raw {
+			r := c08Raw{K: rapid.SampledFrom(kinds).Draw(t, "opkind")}
+			switch r.K {
+			case "add":
+				r.Pick = rapid.IntRange(0, 23).Draw(t, "pick")
+				r.Vec = c08GenVec(t)
+				r.Meta = c08GenMeta(t, 0, lists)
+			case "set":
+				r.Pick = rapid.IntRange(0, 23).Draw(t, "pick")
+				r.Meta = c08GenMeta(t, 1, lists)
+			case "del":
+				r.Pick = rapid.IntRange(0, 23).Draw(t, "pick")
+			}
+			return r
+		})
+		addOp := rapid.Custom(func(t *rapid.T) c08Raw {
+			return c08Raw{K: "add", Pick: rapid.IntRange(0, 23).Draw(t, "pick"), Vec: c08GenVec(t), Meta: c08GenMeta(t, 1, lists)}
+		})
+		raw := rapid.SliceOfN(addOp, 2, 8).Draw(t, "init") // something to select from
+		raw = append(raw, rapid.SliceOfN(rawOp, 3, 24).Draw(t, "ops")...)
+		for _, k := range c08Tails[rapid.IntRange(0, len(c08Tails)-1).Draw(t, "tail")] {
+			raw = append(raw, c08Raw{K: k})
+		}
+		c.Ops = c08Resolve(raw)
+
 		var seen []c08Seen
 		for _, op := range c.Ops {
 			var ks []string
@@ -417,9 +412,16 @@ func c08GenCase() *rapid.Generator[c08Case] {
 				seen = append(seen, c08Seen{k, op.Meta[k]})
 			}
 		}
-		for i, n := 0, rapid.IntRange(2, 4).Draw(t, "nfilters"); i < n; i++ {
-			c.Filters = append(c.Filters, c08GenFilter(t, seen))
-		}
+		clause := rapid.Custom(func(t *rapid.T) c08Clause { return c08GenClause(t, seen) })
+		filter := rapid.Custom(func(t *rapid.T) c08Filter {
+			return c08Filter{
+				Blocks: rapid.SliceOfN(rapid.SliceOfN(clause, 1, 3), 1, 3).Draw(t, "blocks"),
+				And:    rapid.SampledFrom([]string{"AND", "AND", "and", "And", "aNd"}).Draw(t, "andkw"),
+				Or:     rapid.SampledFrom([]string{"OR", "OR", "or", "Or", "oR"}).Draw(t, "orkw"),
+				Wide:   rapid.IntRange(0, 4).Draw(t, "wide") == 4,
+			}
+		})
+		c.Filters = rapid.SliceOfN(filter, 1, 4).Draw(t, "filters")
 		c.Query = c08GenVec(t)
 		c.Query[0] += 0.5 // never the zero vector
 		c.GoInt = rapid.IntRange(0, 19).Draw(t, "goint") == 7
